@@ -195,6 +195,12 @@ func body(spec RunSpec, prof *Profile, dir string, res *RunResult) {
 			res.Panics = rc.W.Net.Panics
 			res.StateHash = rc.W.StateHash()
 		}
+		// trouble of the harness *after* the property's oracle already fired is a consequence of the
+		// violation (the world is no longer what honest actors expect), not a reason to discard it
+		if res.HarnessErr != "" && len(res.Fatal) > 0 {
+			res.Notes = append(res.Notes, Violation{Rule: "harness.after_violation", Msg: res.HarnessErr})
+			res.HarnessErr = ""
+		}
 		// full-log hash for the determinism self-test
 		h := sha256.New()
 		for _, e := range s.Events {
